@@ -22,6 +22,7 @@ SetVal = z3.ArraySort(Val, z3.BoolSort())
 MapVal = z3.ArraySort(Val, Val)
 MapSet = z3.ArraySort(Val, SeqVal)      # dict of sets: a set is the sequence of its elements
 ModelS = z3.DeclareSort('ModelS')
+SetS = z3.DeclareSort('SetS')            # sets passed to specification functions (by membership)
 KeyS = z3.DeclareSort('KeyS')          # abstract sort of sort-key values
 String = z3.StringSort()
 Int = z3.IntSort()
@@ -125,6 +126,7 @@ def empty_set():
 
 
 # uninterpreted vocabulary of semantic models (proofs hold for every model)
+set_mem = z3.Function('set_mem', SetS, Val, Bool)
 m_has = z3.Function('m_has', ModelS, String, Bool)          # _role_re.match(role) is not None
 m_noop = z3.Function('m_noop', ModelS, Bool)                # NoOpModel (overrides deinvert)
 m_norm_has = z3.Function('m_norm_has', ModelS, String, Bool)   # role in normalizations
